@@ -43,6 +43,41 @@ Theorem C07_values_cover_proxy : forall exts drop ms label stored ls l v,
 Proof. exact values_cover_proxy. Qed.
 Print Assumptions C07_values_cover_proxy.
 
+(* The object-storage store gateway (BucketStore) over any set of blocks (external labels +
+   stored series per block; blocks may have different external labels): names and values cover,
+   both through the index-header path (no series matcher left after stripping the external-label
+   matchers) and through the series path (incl. the `label != ""` matcher it adds). *)
+Theorem C07_names_cover_bucket : forall blocks drop ms l n v,
+  (forall b, In b blocks -> valid_ext (fst b)) ->
+  In l (bucket_series_labels blocks drop ms) -> lfind l n = Some v ->
+  In n (bucket_label_names blocks drop ms).
+Proof. exact names_cover_bucket. Qed.
+Print Assumptions C07_names_cover_bucket.
+
+Theorem C07_values_cover_bucket : forall hne blocks drop ms label l v,
+  (forall b, In b blocks -> valid_ext (fst b)) ->
+  (forall b, In b blocks -> stored_vals_ok (snd b)) ->
+  In l (bucket_series_labels blocks drop ms) -> lfind l label = Some v ->
+  In v (bucket_label_values hne blocks drop ms label).
+Proof. exact values_cover_bucket. Qed.
+Print Assumptions C07_values_cover_bucket.
+
+(* ... and the proxy in front of the store gateway. *)
+Theorem C07_names_cover_bucket_proxy : forall blocks drop ms hne label ls l n v,
+  (forall b, In b blocks -> valid_ext (fst b)) ->
+  o_series (model_bucket_proxy blocks drop ms hne label) = Some ls -> In l ls -> lfind l n = Some v ->
+  In n (o_names (model_bucket_proxy blocks drop ms hne label)).
+Proof. exact names_cover_bucket_proxy. Qed.
+Print Assumptions C07_names_cover_bucket_proxy.
+
+Theorem C07_values_cover_bucket_proxy : forall blocks drop ms hne label ls l v,
+  (forall b, In b blocks -> valid_ext (fst b)) ->
+  (forall b, In b blocks -> stored_vals_ok (snd b)) ->
+  o_series (model_bucket_proxy blocks drop ms hne label) = Some ls -> In l ls -> lfind l label = Some v ->
+  In v (o_values (model_bucket_proxy blocks drop ms hne label)).
+Proof. exact values_cover_bucket_proxy. Qed.
+Print Assumptions C07_values_cover_bucket_proxy.
+
 (* Non-vacuity: two replicas (replica="r0"/"r1", region="eu") of a database with one series
    {__name__="up", region="us"}; request {__name__="up"} dropping "replica", asking for "region":
    the proxy returns the series once as {__name__="up", region="eu"}, names and values cover it. *)
@@ -57,5 +92,9 @@ Definition ex_db : list labels := [[(NAME, UP); (REGION7, [117;115]%N)]].
 Example C07_nonvacuous :
   proxy_series_labels ex_exts [REPLICA7] [ex_m] ex_db = Some [[(NAME, UP); (REGION7, EU)]]
   /\ proxy_label_names ex_exts [REPLICA7] [ex_m] ex_db = [NAME; REGION7; REGION7]
-  /\ proxy_label_values ex_exts [REPLICA7] [ex_m] REGION7 ex_db = [EU].
+  /\ proxy_label_values ex_exts [REPLICA7] [ex_m] REGION7 ex_db = [EU]
+  (* the same data as one block of a store gateway *)
+  /\ bucket_series_labels [(nth 0 ex_exts [], ex_db)] [REPLICA7] [ex_m] = [[(NAME, UP); (REGION7, EU)]]
+  /\ bucket_label_names [(nth 0 ex_exts [], ex_db)] [REPLICA7] [ex_m] = [NAME; REGION7]
+  /\ bucket_label_values false [(nth 0 ex_exts [], ex_db)] [REPLICA7] [ex_m] REGION7 = [EU].
 Proof. vm_compute. repeat split. Qed.
